@@ -66,6 +66,10 @@ ChkGToAffine(e) == /\ JacOK(e.G, e.a)
                       IN IF A = Inf THEN IsNone(e.out) /\ IsNone(e.back)
                          ELSE /\ IsSome(e.out) /\ e.out.v = << EncCoord(e.G, A[1]), EncCoord(e.G, A[2]) >>
                               /\ IsSome(e.back) /\ JacOK(e.G, e.back.v) /\ AbsJ(e.G, e.back.v) = A
+\* remaining public surface: G1::b() = 5, G2::b() = 5u; set_x/set_y/set_z rebuild the same triple; affine setters
+ChkGApi(e) == /\ e.b1 = EncFq(B1) /\ e.b2 = EncFq2(B2)
+              /\ e.s1 = e.a1 /\ e.s2 = e.a2 /\ e.s1eq = TRUE /\ e.s2eq = TRUE
+              /\ JacOK("G1", e.af1) /\ AbsJ("G1", e.af1) = AbsJ("G1", e.a1) /\ JacOK("G2", e.af2) /\ AbsJ("G2", e.af2) = AbsJ("G2", e.a2)
 \* ---------------------------------------------------------------- C10
 ChkGEncode(e) ==
     /\ JacOK(e.G, e.a)
